@@ -11,6 +11,8 @@ import NemoVerif.Lemmas.Dnf
 import NemoVerif.Lemmas.GroupExpand
 import NemoVerif.Lemmas.GroupVM
 import NemoVerif.Lemmas.GroupExpandAwait
+import NemoVerif.Lemmas.GroupExpandWhen
+import NemoVerif.Lemmas.GroupFlowVM
 namespace NemoVerif.C07
 open NemoVerif NemoVerif.Dnf NemoVerif.GroupExpand NemoVerif.GroupVM
 
@@ -215,6 +217,162 @@ theorem readBackAwait_expandAwait (g : G) : readBackAwait (expandAwait g) = some
 theorem readBackAwait_expandAwaitClauses (d : Clauses) (k : Nat) : readBackAwait (expandAwaitClauses d k).1 = some d := by
   simp only [readBackAwait, readAwaitGroup_expand]
 
+/-! ## `when` on groups (structure) -/
+
+/-- **readBack_expandWhen.**  The checker that is run on the REAL element list of every generated `when` statement
+    (several cases, optional else, events and flows mixed) accepts what the mirror of `_expand_when_stmt_element`
+    (all passes of `expand_elements`) emits and reads back, for each case, exactly the clauses of the normalised group
+    of that case: one forked head per case, below it one forked head per and-clause, the clause starts its own instance of
+    each of its flows and waits for exactly those references (and for its events), `WaitForHeads` numbers = number of
+    atoms (and-template) / clauses (failure path of the case) / cases (else group), all exits close the scope. -/
+theorem readBack_expandWhen (isFlow : Nat → Bool) (cases : List (G × List Prim)) (els : Option (List Prim)) :
+    readBackWhen (cases.map (·.2)) els (expandWhen isFlow cases els) = some (cases.map fun c => toDnf (normalize c.1)) := by
+  have h := readBackWhen_expandWhenClauses isFlow (cases.map fun c => (toDnf (normalize c.1), c.2)) els 0
+  simp only [List.map_map, Function.comp_def] at h
+  exact h
+
+/-! ## `await` / `when` on groups of flows at run time (T3, Models/GroupFlowVM.lean)
+
+  `GroupFlow.outs g es` = per event about the child flows (`fin a`: the running instances of flow `a` finish, `fail a`: they
+  fail) what the statement does: nothing / marker / failure path.  `know es k` = which flows have finished resp. failed after
+  `es[0..k]` (the first event about a flow decides).  The machine is compared with the real interpreter on every run (ops
+  await / awaitf / when / whenf / whenfe: marker, failure path and the set of running child flows after every event). -/
+
+open NemoVerif.GroupFlow in
+theorem flow_run_spec (g : G) (es : List FEv) (k : Nat) (o : Out) (ho : o ≠ .quiet) :
+    (outs g es)[k]? = some o ↔
+      (k < es.length ∧ verdict (toDnf (normalize g)) (know es k) = o ∧
+        ∀ j, j < k → verdict (toDnf (normalize g)) (know es j) = .quiet) := by
+  simp only [outs, init_abs, run_eq_specRun]
+  exact specRun_spec _ o ho es {} k
+
+open NemoVerif.GroupFlow in
+theorem know_disj (es : List FEv) (k : Nat) : (know es k).Disj :=
+  knowFrom_disj _ _ (fun _ h => by cases h)
+
+/-- **await_group_same_formula.**  `await g` over flows (one group of arbitrary nesting): the element after the statement is
+    reached while processing `es[k]` iff `k` is the least index at which the set of flows that have FINISHED satisfies the
+    formula — the same formula as for `match`, over the flows' Finished events.  A flow that failed never counts. -/
+theorem await_group_same_formula (g : G) (es : List GroupFlow.FEv) (k : Nat) :
+    (GroupFlow.outs g es)[k]? = some .marker ↔
+      (k < es.length ∧ eval (GroupFlow.know es k).finished g = true ∧
+        ∀ j, j < k → eval (GroupFlow.know es j).finished g = false) := by
+  open NemoVerif.GroupFlow in
+  rw [flow_run_spec g es k .marker (by decide)]
+  have hsat : ∀ i, satK (toDnf (normalize g)) (know es i) = eval (know es i).finished g := by
+    intro i; rw [satK_eq _ _ (know_disj es i)]; exact normalize_sound g _
+  constructor
+  · rintro ⟨hk, hv, hall⟩
+    refine ⟨hk, ?_, ?_⟩
+    · rw [← hsat]
+      simp only [verdict] at hv
+      split at hv
+      · assumption
+      · split at hv <;> cases hv
+    · intro j hj
+      rw [← hsat]
+      have := hall j hj
+      simp only [verdict] at this
+      split at this
+      · cases this
+      · rename_i h; simpa using h
+  · rintro ⟨hk, hs, hall⟩
+    refine ⟨hk, ?_, ?_⟩
+    · simp only [verdict, hsat, hs, if_true]
+    · intro j hj
+      have hsj : satK (toDnf (normalize g)) (know es j) = false := by rw [hsat]; exact hall j hj
+      have hsk : satK (toDnf (normalize g)) (know es k) = true := by rw [hsat]; exact hs
+      have huj : unsatK (toDnf (normalize g)) (know es j) = false := by
+        cases hu : unsatK (toDnf (normalize g)) (know es j) with
+        | false => rfl
+        | true =>
+          have := unsatK_mono _ _ (know es k) (know_mono {} es j k (Nat.le_of_lt hj)).2 hu
+          rw [sat_not_unsat _ _ hsk] at this; cases this
+      simp only [verdict, hsj, huj, Bool.false_eq_true, if_false]
+
+/-- **Failure path.**  The statement takes its failure path (`Abort` for `await` and for `when` without `else`, the else
+    branch otherwise) while processing `es[k]` iff `k` is the least index at which the formula can no longer be satisfied:
+    it is false even if every flow that has not FAILED finished.  (A child that fails makes its atom permanently false; the
+    group fails exactly when the formula becomes unsatisfiable — checked on the real code by the ops awaitf / whenf / whenfe.) -/
+theorem group_fails_iff_unsatisfiable (g : G) (es : List GroupFlow.FEv) (k : Nat) :
+    (GroupFlow.outs g es)[k]? = some .failed ↔
+      (k < es.length ∧ eval (GroupFlow.know es k).possible g = false ∧
+        ∀ j, j < k → eval (GroupFlow.know es j).possible g = true) := by
+  open NemoVerif.GroupFlow in
+  rw [flow_run_spec g es k .failed (by decide)]
+  have hun : ∀ i, unsatK (toDnf (normalize g)) (know es i) = !eval (know es i).possible g := by
+    intro i; rw [unsatK_eq]; congr 1; exact normalize_sound g _
+  constructor
+  · rintro ⟨hk, hv, hall⟩
+    refine ⟨hk, ?_, ?_⟩
+    · simp only [verdict] at hv
+      split at hv
+      · cases hv
+      · split at hv
+        · rename_i h; rw [hun] at h; simpa using h
+        · cases hv
+    · intro j hj
+      have := hall j hj
+      simp only [verdict] at this
+      split at this
+      · cases this
+      · split at this
+        · cases this
+        · rename_i h; rw [hun] at h; simpa using h
+  · rintro ⟨hk, hs, hall⟩
+    have huk : unsatK (toDnf (normalize g)) (know es k) = true := by rw [hun, hs]; rfl
+    have hsk : satK (toDnf (normalize g)) (know es k) = false := by
+      cases h : satK (toDnf (normalize g)) (know es k) with
+      | false => rfl
+      | true => rw [sat_not_unsat _ _ h] at huk; cases huk
+    refine ⟨hk, ?_, ?_⟩
+    · simp only [verdict, hsk, huk, Bool.false_eq_true, if_false, if_true]
+    · intro j hj
+      have huj : unsatK (toDnf (normalize g)) (know es j) = false := by rw [hun, hall j hj]; rfl
+      have hsj : satK (toDnf (normalize g)) (know es j) = false := by
+        cases h : satK (toDnf (normalize g)) (know es j) with
+        | false => rfl
+        | true =>
+          have := satK_mono _ _ (know es k) (know_disj es k) (know_mono {} es j k (Nat.le_of_lt hj)).1 h
+          rw [hsk] at this; cases this
+      simp only [verdict, hsj, huj, Bool.false_eq_true, if_false]
+
+/-- **when_group_same_formula.**  A `when g` case over flows is expanded to the same per-clause code as `await g`
+    (`readBack_expandWhen`, `readBackAwait_expandAwait`: per clause its own flow instances and the and-template over
+    `$ref.Finished()`); its run-time behaviour is the same machine: the case body is reached exactly at the least index at
+    which the finished flows satisfy the formula, the else branch (or `Abort`) exactly when the formula becomes unsatisfiable. -/
+theorem when_group_same_formula (g : G) (es : List GroupFlow.FEv) (k : Nat) :
+    ((GroupFlow.outs g es)[k]? = some .marker ↔
+      (k < es.length ∧ eval (GroupFlow.know es k).finished g = true ∧
+        ∀ j, j < k → eval (GroupFlow.know es j).finished g = false)) ∧
+    ((GroupFlow.outs g es)[k]? = some .failed ↔
+      (k < es.length ∧ eval (GroupFlow.know es k).possible g = false ∧
+        ∀ j, j < k → eval (GroupFlow.know es j).possible g = true)) :=
+  ⟨await_group_same_formula g es k, group_fails_iff_unsatisfiable g es k⟩
+
+/-- Marker and failure exclude each other and each happens at most once: at most one index of a run is not quiet. -/
+theorem flow_outcome_at_most_once (g : G) (es : List GroupFlow.FEv) (i j : Nat) (oi oj : GroupFlow.Out)
+    (hoi : oi ≠ .quiet) (hoj : oj ≠ .quiet)
+    (hi : (GroupFlow.outs g es)[i]? = some oi) (hj : (GroupFlow.outs g es)[j]? = some oj) : i = j := by
+  obtain ⟨_, hvi, halli⟩ := (flow_run_spec g es i oi hoi).1 hi
+  obtain ⟨_, hvj, hallj⟩ := (flow_run_spec g es j oj hoj).1 hj
+  rcases Nat.lt_trichotomy i j with h | h | h
+  · have := hallj i h; rw [hvi] at this; exact absurd this hoi
+  · exact h
+  · have := halli j h; rw [hvj] at this; exact absurd this hoj
+
+/-- **Clean-up of the losers.**  Once the statement has completed or failed (some output of the run is not `quiet`), no
+    child flow of the group is running any more: `EndScope` stopped the flows of the other clauses. -/
+theorem children_stopped_after_completion (g : G) (es : List GroupFlow.FEv)
+    (h : ∃ o ∈ GroupFlow.outs g es, o ≠ GroupFlow.Out.quiet) :
+    (GroupFlow.stateAfter (GroupFlow.init (toDnf (normalize g))) es).children = [] := by
+  apply GroupFlow.stateAfter_children_nil _ _ rfl
+  cases hl : (GroupFlow.stateAfter (GroupFlow.init (toDnf (normalize g))) es).live with
+  | false => rfl
+  | true =>
+    obtain ⟨o, ho, hne⟩ := h
+    exact absurd ((GroupFlow.stateAfter_live_iff es _ rfl).1 hl o ho) hne
+
 /-! ## non-vacuity and kernel-evaluated tests (labelled as tests: finite facts) -/
 
 /-- the running example `(A and (B or C)) or D` with A=0, B=1, C=2, D=3, irrelevant event 9 -/
@@ -240,6 +398,16 @@ example : ∀ c ∈ toDnf (normalize ex1), c ≠ [] := by decide
 example : ex1.noEmptyAnd = true := by decide
 example : vmMarkers [[0, 1], [0]] [1, 0] [0] = [false, true] := by decide
 example : vmMarkers [[0, 1], [0]] [1, 0] [1] = [false, true] := by decide
+-- tests of the flow-level machine on `(f0 and f1) or f2`: f0 fails, f1 finishes, f2 fails -> failure path at index 2; f2 finishes -> marker
+example : GroupFlow.outs (.or [.and [.atom 0, .atom 1], .atom 2]) [.fail 0, .fin 1, .fail 2, .fin 0] = [.quiet, .quiet, .failed, .quiet] := by decide
+example : GroupFlow.outs (.or [.and [.atom 0, .atom 1], .atom 2]) [.fail 0, .fin 1, .fin 2] = [.quiet, .quiet, .marker] := by decide
+-- non-vacuity of `children_stopped_after_completion`; before completion the losers are still running
+example : ∃ o ∈ GroupFlow.outs ex1 [.fin 1, .fin 0], o ≠ GroupFlow.Out.quiet := by decide
+example : (GroupFlow.stateAfter (GroupFlow.init (toDnf (normalize ex1))) [.fin 1]).children = [(0, 0), (1, 0), (1, 2), (2, 3)] := by decide
+-- test: the when checker accepts the mirror for `when (f0 and E1) or f2 / send M0 … else send ME` and recovers the clauses
+example : readBackWhen [[.send 0], [.send 1]] (some [.send 99])
+    (expandWhen (fun a => a == 0 || a == 2) [(.or [.and [.atom 0, .atom 1], .atom 2], [.send 0]), (.atom 3, [.send 1])] (some [.send 99]))
+    = some [[[0, 1], [2]], [[3]]] := by decide
 -- the hypothesis `hne` excludes exactly groups like `and []` (not expressible in Colang source)
 example : eval (fun _ => false) (.and []) = true := by decide
 
